@@ -531,6 +531,20 @@ def _analyse_exec(run: Any, ea: ExecAnalysis, retire_probe: bool, aborted: bool,
     from .ref import gen_descendants
     desc_of = gen_descendants(mg["succ"])
     entered: collections.Counter = collections.Counter()
+    # "ran" means: the node's FUNCTION was entered (ground truth from the generated body); calling the node's execute method is
+    # not enough (where tawazi decides about activation - scheduler or node - is internal).  Operator / stub nodes have no
+    # generated body: for them the execute call is the only observation.
+    fn_entered: collections.Counter = collections.Counter()
+
+    def has_body(n: str) -> bool:
+        info_ = table.get(n)
+        return bool(info_) and info_.get("role") == "main" and info_.get("fn") in spec["funcs"]
+
+    def check_not_extra(n: str, a_: dict) -> None:
+        if n not in expected_exec and not failing:
+            g_ = "deact_ran" if n in expected_deact else "count_extra"
+            V.append(viol(g_, f"{n} ran but the reference does not execute it (status {status.get(a_['path'])})",
+                          op=opkey, tok=tok, tags=sel_tag + (["debug"] if a_["debug"] else []) + (["setup"] if a_["setup"] else [])))
     enter_seq: Dict[str, int] = {}
     exit_seq: Dict[str, int] = {}
     exit_ok: Dict[str, bool] = {}
@@ -611,6 +625,8 @@ def _analyse_exec(run: Any, ea: ExecAnalysis, retire_probe: bool, aborted: bool,
         elif k == "enter":
             _, _, nid, part, inline = e
             entered[nid] += 1
+            if not has_body(nid):
+                fn_entered[nid] += 1
             enter_seq.setdefault(nid, seq)
             a = attrs.get(nid)
             if a is None:
@@ -666,13 +682,14 @@ def _analyse_exec(run: Any, ea: ExecAnalysis, retire_probe: bool, aborted: bool,
                                       f"is neither executed nor pre-computed", op=opkey, tok=tok, tags=["debug"]))
                 inside.add(nid)
                 continue
-            # nothing else runs
-            if nid not in expected_exec and not failing:
-                g = "deact_ran" if nid in expected_deact else "count_extra"
-                V.append(viol(g, f"{nid} ran but the reference does not execute it (status {status.get(a['path'])})",
-                              op=opkey, tok=tok, tags=sel_tag + (["debug"] if a["debug"] else []) + (["setup"] if a["setup"] else [])))
+            # nothing else runs: judged where the function body is entered; a node without a generated body (operator, argument
+            # stub) that is wrongly evaluated shows in the values its dependents receive, not here
         elif k == "body":
             _, _, nid, fname, fargs, fkwargs, part = e
+            fn_entered[nid] += 1
+            if nid in attrs and has_body(nid) and not (attrs[nid]["debug"] and ex.debug_on and ex.selected is not None
+                                                       and len(attrs[nid]["path"]) == 1 and attrs[nid]["path"][0][1] not in ex.selected):
+                check_not_extra(nid, attrs[nid])
             p = path_of.get(nid)
             if p is not None and p in ex.args:
                 wa, wk = ex.args[p]
@@ -760,7 +777,7 @@ def _analyse_exec(run: Any, ea: ExecAnalysis, retire_probe: bool, aborted: bool,
     # ---- at the end of a normally returning execution
     if not failing and not aborted and op_ok:
         for nid in expected_exec:
-            c = entered.get(nid, 0)
+            c = fn_entered.get(nid, 0)
             a = attrs[nid]
             tg = sel_tag + (["setup"] if a["setup"] else []) + (["debug"] if a["debug"] else [])
             if c == 0:
@@ -772,7 +789,7 @@ def _analyse_exec(run: Any, ea: ExecAnalysis, retire_probe: bool, aborted: bool,
         for p in mg["unmapped"]:
             if ex.status.get(tuple(x for x in p if x[0] != "stub")) in ("exec", "op", "dag"):
                 V.append(viol("count_missing", f"no node found for call site {p}", op=opkey, tok=tok, tags=["unmapped"]))
-    for nid, c in entered.items():
+    for nid, c in fn_entered.items():
         if c > 1 and nid in attrs and (failing or not op_ok):
             V.append(viol("count_dup", f"{nid} ran {c} times in one execution", op=opkey, tok=tok, tags=["failing"]))
     return V
